@@ -227,8 +227,9 @@ def r3_order_uniqueness(chk: Check):
             srcs = [src(a.iter) for a in par] + [txt]
             chk.require(any("definitions[-1]" in s for s in srcs), chk.fkey(f, "init tasks of the main task"), "init tasks must be those of the last (main) record", loc)
     # everything executes before the return of the object, and run.run executes the task after fromParameters
-    rets = [n for n in g.live if n.kind == "stmt" and isinstance(n.ast, ast.Return) and src(n.ast.value) == "o"]
-    chk.require(len(rets) == 1, chk.fkey(f, "returns the object"), "fromParameters must return the last object", loc)
+    rets = [n for n in g.live if n.kind == "stmt" and isinstance(n.ast, ast.Return)]
+    good = [n for n in rets if n.ast.value is not None and (src(n.ast.value) == "o" or (isinstance(n.ast.value, ast.Tuple) and n.ast.value.elts and src(n.ast.value.elts[0]) == "o"))]
+    chk.require(bool(rets) and len(good) == len(rets) and g.on_every_path(rets), chk.fkey(f, "returns the object"), "fromParameters must return the last object on every path", loc)
     r = tree.func("run", "run")
     gr = CFG(r.node)
     fp = [n for n, c in gr.call_nodes(lambda c: tail(c) == "fromParameters")]
